@@ -1127,6 +1127,21 @@ private:
       {
         try { c.listenerReady->set_value(false); } catch (...) {}
       }
+      // A Connect queued in the same window already returned ok(sid) to its
+      // caller (connect() allocates the sid at enqueue time). Report it like the
+      // pre-insertion failures in doConnect — onClose for that sid, once — so the
+      // sid gets its terminal event and a connectSync parked on it is released.
+      // No Session was ever inserted, so no session counters change.
+      if (c.t == Cmd::Connect)
+      {
+        decltype(_cbs.onClose) closeCb;
+        { std::lock_guard<std::mutex> g(_cbMutex); closeCb = _cbs.onClose; }
+        if (closeCb)
+        {
+          closeCb(c.c.sid, TransportErrorInfo{TransportError::ShuttingDown,
+                                              "connect: transport shutting down"});
+        }
+      }
     }
     if (_epollFd >= 0)
     {
